@@ -312,14 +312,7 @@ where
     })
 }
 
-const KNOWN_TESTS: [&str; 38] = [
-    "AccessTime", "ChangeTime", "Empty", "Executable", "False", "GroupId", "InodeNumber", "InsensitiveName", "InsensitivePath",
-    "Links", "MirrorCount", "ModifyTime", "Name", "Path", "Perm", "Pool", "Readable", "Size", "StripeCount", "True", "Type",
-    "UserId", "Writable", "Xattr", "XattrMatch", "AccessNewer", "ChangeNewer", "FsType", "Group", "InsensitiveLinkName",
-    "InsensitiveRegex", "LinkName", "ModifyNewer", "NoGroup", "NoUser", "Regex", "Samefile", "User",
-];
-
-/// Facts read off the public AST.
+/// Facts read off the public AST: (time tests, hashed resources).
 pub fn tree_facts(e: &lipe_find_parser::ast::Expression) -> (usize, usize) {
     let (t, r, _) = tree_facts3(e);
     (t, r)
@@ -327,50 +320,7 @@ pub fn tree_facts(e: &lipe_find_parser::ast::Expression) -> (usize, usize) {
 
 /// (time tests, hashed resources, tree contains a test kind unknown to this harness)
 pub fn tree_facts3(e: &lipe_find_parser::ast::Expression) -> (usize, usize, bool) {
-    use lipe_find_parser::ast::{Action, Expression, Operator, Test};
-    fn walk(e: &Expression, time: &mut usize, res: &mut std::collections::BTreeSet<String>) {
-        match e {
-            Expression::Operator(op) => match op.as_ref() {
-                Operator::Precedence(a) | Operator::Not(a) => walk(a, time, res),
-                Operator::And(a, b) | Operator::Or(a, b) | Operator::List(a, b) => {
-                    walk(a, time, res);
-                    walk(b, time, res);
-                }
-            },
-            Expression::Test(t) => match t {
-                Test::AccessTime(_) | Test::ChangeTime(_) | Test::ModifyTime(_) => *time += 1,
-                // a test kind this harness does not know (added after the pinned tree): it may or
-                // may not be a time test; reported through the resource set
-                other if !KNOWN_TESTS.contains(&format!("{other:?}").split(|c: char| !c.is_alphanumeric()).next().unwrap_or("")) => {
-                    res.insert("unknown-test-kind".into());
-                }
-                Test::Name(s) | Test::Path(s) => {
-                    res.insert(format!("m:{s}"));
-                }
-                Test::InsensitiveName(s) | Test::InsensitivePath(s) => {
-                    res.insert(format!("i:{s}"));
-                }
-                _ => {}
-            },
-            Expression::Action(a) => match a {
-                Action::Quit | Action::PrintFid => {}
-                #[allow(deprecated)]
-                Action::DefaultPrint => {}
-                other => {
-                    let d = format!("{other:?}");
-                    // printers are keyed by destination and terminator, not by format
-                    let key = d.split('[').next().unwrap_or(&d).to_string();
-                    res.insert(format!("a:{key}"));
-                }
-            },
-            _ => {}
-        }
-    }
-    let mut time = 0;
-    let mut res = std::collections::BTreeSet::new();
-    walk(e, &mut time, &mut res);
-    let unknown = res.remove("unknown-test-kind");
-    (time, res.len(), unknown)
+    crate::astwalk::tree_facts3(e)
 }
 
 /// parse + compile, everything observable boxed up. Runs on a caller thread.
